@@ -26,6 +26,27 @@ CLAIMED["C15"] = ("contract-based deductive verification (WP -> SMT) of TrimColl
   "Trusted: govc, SMT solvers, go/types. Known finding F2 (triSign(1)==0) carved out and replayed. Beyond the bound the closed-path clauses are undecided.",
   "DESIGN.md section 4, C15")
 
+CLAIMED["C12"] = ("contract-based deductive verification: heap contracts (idle-state invariant) by WP -> SMT; frame / initialised-before-read / solution-replaced obligations by a syntactic effect analysis over the real AST",
+  "For all call histories (the obligations are statements about state, not about a run): (1) every public engine entry point (Execute, ExecuteOC, ExecutePolyTree on both engines, clipperBase.execute) "
+  "re-establishes the idle state (no active edges, empty scan-line / intersection / output-record / horizontal lists) and constructors start in it; reset() re-initialises the per-run scratch fields; "
+  "(2) in the call tree of every entry point the per-run fields succeeded, fillRule, clipType, currentBotY, currentLocMin, sel, usingPolyTree are written before they are read; (3) the pre-call contents "
+  "of every solution argument are dead (truncated before first use); (4) no exported function writes memory reachable from a caller-supplied slice, no AddPaths variant retains one, and no function writes a package-level variable. "
+  "Not decided: equality of results when the same paths are added in another order or split over several AddPaths calls (a sweep property).",
+  "Trusted: govc (incl. its effect analysis: field-sensitive, flow-insensitive for aliases, callees by summary), SMT solvers, go/types. Callees without contract are havocked (everything their summary says they may write). "
+  "User callbacks assumed not to write library state. Four defects found by these obligations were repaired (F9, F10, F11, F27: fix commits in /repo, recorded as fixed in known_findings.json).",
+  "DESIGN.md section 4, C12")
+CLAIMED["C18"] = ("contract-based verification reduced to frame conditions: per-function frame obligations (no global writes, no concurrency primitives, read-only inputs) decided by a syntactic effect analysis of every function in the package",
+  "If no call writes memory that another call can reach, every interleaving of independent calls is race-free and each call computes what it computes alone. Decided for all 340+ function bodies on every run: "
+  "no function writes or takes the address of a package-level variable (transitively through callees); package-level variables are initialised by pure expressions and are not of a mutable reference kind; no go statement, "
+  "channel, select, sync/atomic/unsafe/runtime use; exported functions only read caller-supplied slices. Interleavings themselves are not explored (this family cannot).",
+  "Assumes the Go runtime and the imported packages (math, sort, slices, fmt, errors, govalues/decimal, x/exp/constraints) keep no racy shared state. Conservative: a correctly synchronised package-level cache would be reported (the one known source of a possible false alarm).",
+  "DESIGN.md section 4, C18")
+CLAIMED["C17"] = ("contract-based verification reduced to frame conditions (determinism: no hidden state, no nondeterministic source) plus SMT-checked comparator contracts",
+  "First sentence of the property only (bit-identical repeat calls): every function is free of package-level state, map iteration, clocks, random sources, environment access and address-as-integer conversions, so a call is a function of its arguments and receiver state; "
+  "sort comparators are checked as contracts where listed in evidence. All region-equality clauses (permutation, rotation, reversal, subject/clip exchange, lattice symmetries) are relational properties of the sweep and are NOT decided (listed under undecided_clauses).",
+  "Assumes sort.Slice / slices.SortFunc are deterministic functions of their input. Region-level clauses undecided.",
+  "DESIGN.md section 4, C17")
+
 NOT_APPLICABLE = {
 }
 
